@@ -465,6 +465,60 @@ def history_descs_geig(rng, count, types=("d",), maxlen=2):
     return out
 
 
+def pub_history_descs(rng, seqs, classes=("sym", "symsh", "herm", "gen", "genrs", "gencs", "gchol", "greginv", "gsi", "gbuck", "gcay"), types=("d",), per_seq=1):
+    """C05/C06/C14: the public call histories GENERATED BY TLC from spec/IRPublic.tla (tools/krygen.py pub_sequences: every sequence over
+    N I V1 V2 Z C0 C1 C2 C3 F1 up to a length bound), each executed on a new object from its construction and followed by the observed pair
+    'init(v); compute(args)', whose digest must equal that of the same pair on a fresh object.  args2 has an unsupported selection rule, args3 a supported selection and an unsupported sorting
+    rule; F0 disarms a fault the history may have left armed."""
+    out = []
+    i = 0
+    for seq in seqs:
+        for rep in range(per_seq):
+            cls = classes[i % len(classes)]
+            i += 1
+            ty = rng.choice(types)
+            gen = cls in ("gen", "genrs", "gencs")
+            if cls in GEIG:
+                kw = geig_kw(rng, cls, ty, nmax=14)
+                rules = [0, 3, 7] if cls in ("gsi", "gbuck", "gcay") else HERM_SEL
+                sorts = HERM_SORT
+            else:
+                n = rng.randint(8, 14)
+                f = gen_fam(rng, n) if gen else herm_fam(rng, n)
+                if cls == "herm" and f["fam"] not in ("rand", "presc", "blockdiag"):
+                    f = dict(fam="rand")
+                if cls == "symsh" and f["fam"] in ("bipart", "grid"):
+                    f = dict(fam="rand")
+                nev, ncv = pick_dims(rng, n, gen=gen)
+                kw = dict(cls=cls, ty=ty, n=n, nev=nev, ncv=ncv, seed=rng.randint(1, 10 ** 6))
+                kw.update(f)
+                rules = GEN_RULES if gen else HERM_SEL
+                sorts = GEN_RULES if gen else HERM_SORT
+                if cls == "symsh":
+                    kw["sigma"] = rng.choice(["0.37", "-1.63", "2.5"])
+                    rules = [0, 3, 7, 8]
+                if cls == "genrs":
+                    kw["sigma"] = rng.choice(["0.37", "-1.63", "2.45"])
+                    rules = [0, 1, 2]
+                if cls == "gencs":
+                    kw["sigma"] = rng.choice(["0.37", "-1.13", "2.45"])
+                    kw["sigmai"] = rng.choice(["0.8", "1.9", "0.3"])
+                    rules = [0]
+                if cls == "gen":
+                    rules = [0, 1, 2, 5, 6]
+            kw["args0"] = "%d:%d:%s:%d" % (rng.choice(rules), rng.choice([80, 80, 3]), tol_for(rng, ty), rng.choice(sorts))
+            kw["args1"] = "%d:%d:%s:%d" % (rng.choice(rules), rng.choice([0, 1, 2]), tol_for(rng, ty), rng.choice(sorts))
+            kw["args2"] = "%d:%d:%s:%d" % (3 if gen else 1, 5, tol_for(rng, ty), rng.choice(sorts))
+            kw["args3"] = "%d:%d:%s:%d" % (rng.choice(rules), rng.choice([2, 80]), tol_for(rng, ty), 3 if gen else 1)
+            obs = rng.choice(["I,C0", "V1,C0", "I,C1"])
+            # baseline on a fresh object; then a second object lives through the generated history FROM ITS CONSTRUCTION (the generator's
+            # initial state is the fresh object) and is observed with the same pair
+            kw["hist"] = "N,P," + obs + ",P,N" + ("," + seq if seq else "") + ",F0," + obs + ",P"
+            kw.update(sv1=rng.choice(["rnd", "rnd2"]), sv2=rng.choice(["rnd", "rnd2"]), meas=0, mconv=0, ref=0)
+            out.append(desc(**kw))
+    return out
+
+
 def eigvec_start_descs(rng, count, types=("d",)):
     """C06/C14: init(v) with v an EXACT eigenvector (e1 for a diagonal / upper triangular matrix): the residual of the step-1
     factorization is exactly zero, which takes the 'force f to zero' branch of Arnoldi::init on a reused object."""
